@@ -135,6 +135,7 @@ def run_history(case, fresh=False, workers=None):
                                                   for a, v in sub)),
                                constants=consts or None, verbosity=0, **skw)
 
+        onlooker = []
         if case.get("aborted_first") and not fresh:
             # an earlier attempt at the same sweep with a function that broke
             # down in the middle of a batch; the function is repaired and the
@@ -143,8 +144,21 @@ def run_history(case, fresh=False, workers=None):
             tfile = os.path.join(root, "fail-at.txt")
             kind0 = "str" if kind != "str" else "int"
             fn0 = functools.partial(models.failing_at, _xv=(kind0, tfile))
-            with under_test("first attempt: sow"):
-                sow(fn0)
+            saved_sh = case.get("sow_shuffle")
+            if case.get("onlooker") and case["input"] == "grid":
+                # (the first attempt went through the grid in another order)
+                case["sow_shuffle"] = False if saved_sh else 13
+            try:
+                with under_test("first attempt: sow"):
+                    sow(fn0)
+            finally:
+                case["sow_shuffle"] = saved_sh
+            if case.get("onlooker"):
+                # somebody opens the crop by name during the first attempt
+                # and looks at it; they will do the final reap
+                with under_test("onlooker opens the crop"):
+                    onlooker.append(x.Crop(name=name, parent_dir=root))
+                    str(onlooker[0]), onlooker[0].num_results
             capped = bool(bspec) and bspec[0] == "num_batches" and \
                 bspec[1] != len(crops.batch_ids(root, name))
             if capped:
@@ -240,7 +254,8 @@ def run_history(case, fresh=False, workers=None):
         got = {}
 
         def reap():
-            c = get_crop(case.get("reap_reload"))
+            c = onlooker[0] if onlooker else \
+                get_crop(case.get("reap_reload"))
             got["res"] = c.reap()
         with under_test("reap"):
             reap()      # the result has to come back to this process
@@ -438,6 +453,7 @@ def history(draw, max_settings=40):
     case["final_reload"] = draw(st.booleans())
     case["same_object_again"] = draw(st.sampled_from([False, False, True]))
     case["aborted_first"] = draw(st.sampled_from([False, False, True]))
+    case["onlooker"] = bool(case["aborted_first"]) and draw(st.booleans())
     case["reap_reload"] = draw(st.booleans())
     return case
 
